@@ -114,3 +114,18 @@ Lemma valid_ci_nth ci j : valid_ci ci -> 1 <= nth j ci 1.
 Proof.
   intros Hv. revert j. induction Hv as [|m ci Hm _ IH]; intros [|j]; cbn; try lia; try apply IH.
 Qed.
+
+Lemma make_valid_laws ci a b : valid_ci ci ->
+  make_valid ci (make_valid ci a) = make_valid ci a /\
+  make_valid ci (vadd a (make_valid ci b)) = make_valid ci (vadd a b) /\
+  make_valid ci (vadd (make_valid ci a) b) = make_valid ci (vadd a b) /\
+  make_valid ci (vneg (make_valid ci a)) = make_valid ci (vneg a) /\
+  make_valid ci (vneg (make_valid ci (vneg a))) = make_valid ci a.
+Proof.
+  intros Hv. repeat split.
+  - apply make_valid_idem; exact Hv.
+  - apply make_valid_add_r; exact Hv.
+  - apply make_valid_add_l; exact Hv.
+  - apply make_valid_neg; exact Hv.
+  - apply make_valid_neg_neg; exact Hv.
+Qed.
